@@ -19,27 +19,44 @@ FUNCS = SIM_FUNCS + ["acnportal.acnsim.network.current.Current.*", "acnportal.al
                      "acnportal.algorithms.utils.infrastructure_constraints_feasible", "acnportal.algorithms.preprocessing.*", "acnportal.algorithms.postprocessing.format_array_schedule"]
 ASSUMPTIONS = SIM_ASSUMPTIONS + [
     "permutations of station registration / constraint insertion / session listing are enumerated (one job each); time shift k in {1,2}",
-    "sorted scheduler: arrivals pairwise distinct (decisions do not hinge on ties); with uninterrupted charging departures pairwise distinct too (minimum rates are granted in order of remaining time)",
+    "earliest-deadline-first jobs: estimated departures symbolic and pairwise distinct, real departures pairwise distinct, arrivals may coincide",
+    "first-come-first-served: arrivals pairwise distinct (decisions do not hinge on ties); with uninterrupted charging departures pairwise distinct too (minimum rates are granted in order of remaining time)",
     "behaviour across interpreter processes (PYTHONHASHSEED) is outside the claim",
 ]
 
 
-def _scenario(cx, stations, station_of, H, battery, n_cons, distinct, req_lo=0):
+def _scenario(cx, stations, station_of, H, battery, n_cons, distinct, req_lo=0, est=False, together=False, dshard=None):
     """all symbolic inputs of the scenario, created once and shared by both runs"""
     times = []
     for i in range(len(station_of)):
         a = cx.int("a%d" % i, 0, H - 1)
         d = cx.int("d%d" % i, 1, H)
         cx.assume(lt(a, d))
+        if together:  # quick tier: every session arrives in period 0 (they are all present at once); departures stay symbolic
+            cx.assume(eq(a, 0))
+        if dshard is not None:  # departures pinned: the shards of a job family enumerate every assignment inside the bound
+            cx.assume(eq(d, dshard[i]))
         times.append((a, d))
     for i in range(len(station_of)):
         for j in range(i + 1, len(station_of)):
             if station_of[i] == station_of[j]:
                 cx.assume(or_(le(times[i][1], times[j][0]), le(times[j][1], times[i][0])))
-            if distinct:
+            if distinct and not est:
                 cx.assume(ne(times[i][0], times[j][0]))
             if distinct == "arrivals+departures":  # uninterrupted charging orders sessions by remaining time as well
                 cx.assume(ne(times[i][1], times[j][1]))
+    ests = None
+    if est:
+        # earliest-deadline-first orders by the user's ESTIMATED departure (symbolic, pairwise distinct, independent of the
+        # real one), so arrivals may coincide and all sessions can be present at once inside a short horizon; real
+        # departures stay pairwise distinct because the minimum-rate pass orders by time to the real departure
+        ests = []
+        for i in range(len(station_of)):
+            e = cx.int("est%d" % i, 1, H + len(station_of))
+            cx.assume(lt(times[i][0], e))
+            for f in ests:
+                cx.assume(ne(e, f))
+            ests.append(e)
     bp = []
     for i in range(len(station_of)):
         if battery == "huge":
@@ -51,7 +68,7 @@ def _scenario(cx, stations, station_of, H, battery, n_cons, distinct, req_lo=0):
             bp.append((cap, init, cx.real("maxp_%d" % i, lo=0, lo_open=True, hi=50)))
     req = [cx.real("req_%d" % i, lo=req_lo, lo_open=True, hi=100) for i in range(len(station_of))]
     limits = [cx.real("limit_%d" % i, lo=0, hi=100) for i in range(n_cons)]
-    return dict(times=times, bp=bp, req=req, limits=limits, table={})
+    return dict(times=times, bp=bp, req=req, limits=limits, table={}, ests=ests)
 
 
 CONS = [  # (name, coefficients by station index)
@@ -63,20 +80,21 @@ FEEDERS = [("feeder_A", (1, 0, 1)), ("feeder_B", (0, 1, 0))]  # two independent 
 
 
 def _run(cx, sc, stations, station_of, battery, sched, n_cons, st_perm, c_perm, s_perm, k, H, via_json=False):
+    sched = sched.replace("_together", "")
     A = acn()
     net = A.ChargingNetwork()
     for j in st_perm:
         sid, kind, V, ph = stations[j]
         net.register_evse(make_evse(sid, kind), V, ph)
     for ci in c_perm:
-        name, coeffs = (FEEDERS if sched == "fcfs_unint" else CONS)[ci]
+        name, coeffs = (FEEDERS if "_unint" in sched else CONS)[ci]
         cur = A.Current({stations[j][0]: coeffs[j] for j in st_perm[::-1] if j < len(coeffs) and coeffs[j] != 0})
         net.add_constraint(cur, sc["limits"][ci], name=name)
     evs = []
     for i in s_perm:
         a, d = sc["times"][i]
         b = A.Battery(*sc["bp"][i]) if battery != "stepwise" else A.Linear2StageBattery(*sc["bp"][i], charge_calculation="stepwise")
-        evs.append(A.EV(a + k, d + k, sc["req"][i], stations[station_of[i]][0], "sess%d" % i, b))
+        evs.append(A.EV(a + k, d + k, sc["req"][i], stations[station_of[i]][0], "sess%d" % i, b, estimated_departure=(sc["ests"][i] + k if sc.get("ests") else None)))
     if sched == "scripted":
         kinds = {s[0]: s[1] for s in stations}
 
@@ -129,10 +147,10 @@ def _run(cx, sc, stations, station_of, battery, sched, n_cons, st_perm, c_perm, 
                 return out
 
         algo = Algo2()
-    elif sched == "fcfs_unint":
-        from acnportal.algorithms import SortedSchedulingAlgo, first_come_first_served
+    elif sched in ("fcfs_unint", "edf_unint_est"):
+        from acnportal.algorithms import SortedSchedulingAlgo, first_come_first_served, earliest_deadline_first
 
-        algo = SortedSchedulingAlgo(first_come_first_served, uninterrupted_charging=True)
+        algo = SortedSchedulingAlgo(earliest_deadline_first if sched == "edf_unint_est" else first_come_first_served, uninterrupted_charging=True)
     elif sched == "uncontrolled":
         from acnportal.algorithms import UncontrolledCharging
 
@@ -160,12 +178,12 @@ def _run(cx, sc, stations, station_of, battery, sched, n_cons, st_perm, c_perm, 
                 energy={ev.session_id: ev.energy_delivered for ev in evs}, order=ids)
 
 
-def h_pair(cx, stations, station_of, H, battery, sched, n_cons, st_perm, c_perm, s_perm, k, req_lo=0, via_json=False):
+def h_pair(cx, stations, station_of, H, battery, sched, n_cons, st_perm, c_perm, s_perm, k, req_lo=0, via_json=False, dshard=None):
     env.install(cx)
     if via_json:
         env.install_json(cx)
         cx.tag("json_round_trip_before_run")
-    sc = _scenario(cx, stations, station_of, H, battery, n_cons, distinct=("arrivals+departures" if sched == "fcfs_unint" else sched.startswith("fcfs")), req_lo=req_lo)
+    sc = _scenario(cx, stations, station_of, H, battery, n_cons, distinct=("arrivals+departures" if "_unint" in sched else sched.startswith("fcfs")), req_lo=req_lo, est="_est" in sched, together=sched.endswith("_together"), dshard=dshard)
     ident = tuple(range(len(stations)))
     base = _run(cx, sc, stations, station_of, battery, sched, n_cons, ident, tuple(range(n_cons)), tuple(range(len(station_of))), 0, H)
     other = _run(cx, sc, stations, station_of, battery, sched, n_cons, st_perm, c_perm, s_perm, k, H, via_json=via_json)
@@ -197,10 +215,11 @@ def jobs(tier):
     S3f = [("n3", "CC", 208, 0), ("n1", "AV5", 120, 0), ("n2", "CC", 240, 0)]
     js = []
 
-    def add(st, so, H, bat, sched, nc, sp, cp, ssp, k, cost=1, req_lo=0, via_json=False):
-        name = "pair[%s,n=%d,sess=%s,H=%d,%s,cons=%d,stations=%s,constraints=%s,sessions=%s,shift=%d%s]" % (
-            sched, len(st), "".join(map(str, so)), H, bat, nc, "".join(map(str, sp)), "".join(map(str, cp)), "".join(map(str, ssp)), k, ",json" if via_json else "")
-        js.append(Job(name, h_pair, dict(stations=st, station_of=so, H=H, battery=bat, sched=sched, n_cons=nc, st_perm=sp, c_perm=cp, s_perm=ssp, k=k, req_lo=req_lo, via_json=via_json), functions=FUNCS + (
+    def add(st, so, H, bat, sched, nc, sp, cp, ssp, k, cost=1, req_lo=0, via_json=False, dshard=None):
+        name = "pair[%s,n=%d,sess=%s,H=%d,%s,cons=%d,stations=%s,constraints=%s,sessions=%s,shift=%d%s%s]" % (
+            sched, len(st), "".join(map(str, so)), H, bat, nc, "".join(map(str, sp)), "".join(map(str, cp)), "".join(map(str, ssp)), k, ",json" if via_json else "",
+            ",departures=%s" % "".join(map(str, dshard)) if dshard else "")
+        js.append(Job(name, h_pair, dict(stations=st, station_of=so, H=H, battery=bat, sched=sched, n_cons=nc, st_perm=sp, c_perm=cp, s_perm=ssp, k=k, req_lo=req_lo, via_json=via_json, dshard=dshard), functions=FUNCS + (
             ["acnportal.acnsim.base.BaseSimObj.to_json/from_json", "acnportal.acnsim.network.charging_network.ChargingNetwork._to_dict/_from_dict", "acnportal.acnsim.simulator.Simulator._to_dict/_from_dict/update_scheduler"] if via_json else []),
                       expect_tags=("both_ran",), max_paths=100000, timeout=6000,
                       bounds=dict(stations=len(st), sessions=len(so), horizon=H, battery=bat, scheduler=sched, constraints=nc, station_order=list(sp), constraint_order=list(cp),
@@ -220,14 +239,18 @@ def jobs(tier):
         Sc = [("PS-B", "EVSE", 208, 0), ("PS-A", "EVSE", 240, 0)]
         add(Sc, (0, 1), 3, "huge", "scripted_mr2", 1, (1, 0), (0,), (1, 0), 1)        # open-loop scheduler, shift
         add(Sc, (0, 0), 3, "huge", "scripted_mr2", 0, (0, 1), (), (0, 1), 2)
-        for sp in ((1, 0, 2), (2, 1, 0)):
-            add(S3f, (0, 1, 2), 3, "huge", "fcfs_unint", 2, sp, (1, 0), (0, 1, 2), 0, cost=5, req_lo=50)
+        # all three sessions present at once, one feeder congested (a minimum rate may not fit): sharded by the departures
+        for ds in itertools.permutations((1, 2, 3)):
+            add(S3f, (0, 1, 2), 3, "huge", "edf_unint_est_together", 2, (1, 0, 2), (1, 0), (0, 1, 2), 0, cost=5, req_lo=50, dshard=ds)
     else:
         Sc = [("PS-B", "EVSE", 208, 0), ("PS-A", "EVSE", 240, 0)]
         for k in (1, 2, 3):
             add(Sc, (0, 1), 4, "ideal", "scripted_mr2", 1, (1, 0), (0,), (1, 0), k)
         for sp in itertools.permutations(range(3)):
             add(S3f, (0, 1, 2), 4, "huge", "fcfs_unint", 2, sp, (1, 0), (0, 1, 2), 0, cost=50, req_lo=50)
+            if sp != (0, 1, 2):
+                for ds in itertools.permutations((1, 2, 3)):
+                    add(S3f, (0, 1, 2), 3, "huge", "edf_unint_est", 2, sp, (1, 0), (0, 1, 2), 0, cost=50, req_lo=50, dshard=ds)
         for sp in itertools.permutations(range(3)):
             add(S3, (0, 1, 2), 3, "ideal", "scripted", 3, sp, (0, 1, 2), (0, 1, 2), 0)
             add(S3f, (0, 1, 2), 3, "ideal", "fcfs", 3, sp, (2, 0, 1), (0, 1, 2), 0, cost=3)
